@@ -531,7 +531,10 @@ def run(chk, facts, tier, only=None):
                 if vname not in NUMERAL_TOKENS and vname not in OTHER_NUMBER_TOKENS:
                     raise AnchorMissing(f"Token::{vname} uses the named callback `{cb}` but is not in the numeral-token table of c13.py")
                 h = ctx.cp.fn(r"^candid_parser::token::%s$" % re.escape(cb.rsplit("::", 1)[-1]))
-                models[vname] = (cb, U.callback_model(h))
+                try:
+                    models[vname] = (cb, U.callback_model(h))
+                except AnchorMissing:
+                    models[vname] = (cb, U.EvalModel(h, ctx.cp))        # another spelling of the callback: evaluate it on sample lexemes
                 chk.analysed(h["key"])
         for vname in NUMERAL_TOKENS:
             if vname not in tok or vname not in models or tok[vname]["payload"] != "alloc::string::String":
@@ -553,13 +556,16 @@ def run(chk, facts, tier, only=None):
                 cb, model = models[vname]
                 for rule in tok[vname]["rules"]:
                     nob += 1
-                    w = U.image_not_included(rule["rx"], model, target)
+                    w = U.sample_image_not_included(rule["rx"], model, target) if isinstance(model, U.EvalModel) \
+                        else U.image_not_included(rule["rx"], model, target)
                     k = f"lang:Token::{vname}->{ob['consumer']}"
                     if w is None:
                         chk.ok(k, f"/{rule['pattern']}/ through {cb} ({model.describe()}) ⊆ /{ob['pre']}/")
                     else:
                         outw = model.apply(w)
                         assert rule["rx"].accepts(w) and not target.accepts(outw), "witness check failed"
+                        if isinstance(model, U.EvalModel):
+                            chk.assume("C13.R3: a callback that is not of the delete/strip-prefix shape is evaluated on lexemes of at most 6 representative characters")
                         chk.bad(k, f"Token::{vname} matches /{rule['pattern']}/, e.g. the lexeme `{w}`; its callback {cb} ({model.describe()}) "
                                    f"turns that into `{outw}`, which is not in /{ob['pre']}/ — the grammar action {ctx.name(c['fn'])} "
                                    f"feeds it to {ob['consumer']}() and panics (a `u32::from_str_radix` consumer of the same token only reports an error)",
